@@ -67,6 +67,9 @@ func VerifHeapSane() bool {
 		if fu == nil || fu.idx != i {
 			return false
 		}
+		if i > 0 && cc.futures.Less(i, (i-1)/2) {
+			return false // a future that is due before its parent: it would be started late
+		}
 	}
 	return true
 }
